@@ -66,3 +66,10 @@ claim("C15", "`_dedup` (the de-duplication used for union members and, typed, fo
       note=NOTE + " C15-specific: the dispatch of TypeNormalizer over live `typing` objects is reflection and stays outside the "
                   "contracts; it is covered only by the bounded rewrite enumeration (labelled bounded in the evidence, not counted "
                   "as proved). Ordering helpers (_order_args/_make_orderable) are not under contract.")
+
+claim("C14", "post-conditions of the as-is coercer providers (same type, destination Any, non-generic subclass, union sub-case by TYPE "
+             "equality) taken from the property text and proved on every path of the real methods for arbitrary normalised types; "
+             "each raises only CannotProvide otherwise",
+      note=NOTE + " C14-specific: strip_tags / is_generic / is_parametrized / is_subclass_soft are abstracted as deterministic "
+                  "total functions; `==` of normalised types is the relation py_eq; the structural coercers (Optional, iterable, "
+                  "dict), the model coercer and the unlinked-field policy chain are not yet under contract.")
